@@ -407,6 +407,81 @@ def load_corpus():
     return out
 
 
+# ------------------------------------------------------------------------------------------------ request histories
+def make_script(rng, c, include_risky):
+    """A sequence of requests for ONE Resolver: every name twice in a row and again after other names, failing names
+    (missing, malformed, cyclic, missing parent) interleaved with good ones, HasTarget / ListAvailableTargets before
+    and after failed loads, ResolveAll after single resolves."""
+    pool = [n for n in c["names"] if include_risky or n not in c["risky"]] + ["no-such-target"]
+    ops = [["has", n] for n in rng.sample(pool, min(3, len(pool)))]
+    ops.append(["list"])
+    o = list(pool)
+    rng.shuffle(o)
+    for n in o:
+        ops += [["resolve", n], ["resolve", n]]
+    ops += [["has", n] for n in pool]
+    o = list(pool)
+    rng.shuffle(o)
+    ops += [["resolve", n] for n in o]
+    ops += [["all"], ["list"]]
+    o = list(pool)
+    rng.shuffle(o)
+    for n in o[:6]:
+        ops += [["resolve", n], ["has", n]]
+    ops.append(["all"])
+    return ops
+
+
+def expect_op(c, op, kinds):
+    """what the request must answer, whatever was asked before (the specification has no history)"""
+    if op[0] == "resolve":
+        e = c["expect"].get(op[1]) or py_resolve(c["entries"], op[1], kinds)
+        return ("ok", e[1]) if e[0] == "ok" else ("err",)
+    if op[0] == "has":
+        e = c["entries"].get(op[1])
+        return ("has", e is not None and e != BAD)
+    if op[0] == "list":
+        return ("list", sorted(c["files"]))
+    if op[0] == "all":
+        exps = {n: (c["expect"].get(n) or py_resolve(c["entries"], n, kinds)) for n in c["files"]}
+        if any(e[0] != "ok" for e in exps.values()):
+            return ("err",)
+        return ("all", {n: e[1] for n, e in exps.items()})
+    raise ValueError(op)
+
+
+def clean_cfg(d):
+    return {k: v for k, v in (d or {}).items() if not k.startswith("?")}
+
+
+def judge_op(exp, got):
+    """None if the answer is the demanded one, else a short class of the deviation"""
+    if got is None or got.get("err") in ("panic", "bad-op"):
+        return "panic"
+    if "res" in got:
+        r = got["res"]
+        if r.get("err") in ("panic", "nil-config"):
+            return "panic"
+        if "err" in r:
+            return None if exp[0] == "err" else "error-instead-of-config"
+        if exp[0] != "ok":
+            return "config-instead-of-error"
+        return None if clean_cfg(r.get("ok")) == exp[1] else "wrong-config"
+    if "has" in got:
+        return None if exp == ("has", got["has"]) else "wrong-answer"
+    if "list" in got:
+        return None if exp == ("list", sorted(got["list"][1:])) else "wrong-answer"
+    if "all" in got:
+        if exp[0] != "all":
+            return "config-instead-of-error"
+        if any("ok" not in v for v in got["all"].values()):
+            return "panic"
+        return None if {k: clean_cfg(v["ok"]) for k, v in got["all"].items()} == exp[1] else "wrong-config"
+    if "err" in got:                       # error of list / all
+        return None if exp[0] == "err" else "error-instead-of-config"
+    return "panic"
+
+
 def closure_files(c, n):
     """the files a name depends on (for replays of shipped targets)"""
     seen, todo = {}, [n]
@@ -499,6 +574,13 @@ def run(ctx, args):
     if args.replay:
         rp = json.load(open(args.replay))["replay"]
         cases.append({"files": rp["files"], "meta": {"shape": "replay", "density": "replay"}})
+        if rp.get("ops"):
+            cases[-1]["script"] = rp["ops"]
+        if "(directory)" in rp["files"]:
+            cases[-1]["dir"] = rp["files"]["(directory)"]
+            cases[-1]["files"] = {os.path.basename(fn)[:-5]: open(fn, encoding="utf-8", errors="surrogateescape").read()
+                                  for fn in sorted(glob.glob(os.path.join(cases[-1]["dir"], "*.json")))}
+            cases[-1]["meta"] = {"shape": "shipped", "density": "shipped"}
     else:
         # shipped targets: the directory itself for the real code, an independent parse for model and spec
         shipped = {}
@@ -588,6 +670,71 @@ def run(ctx, args):
         default_limit = rd[0].get("crash", "no-crash")
         ctx.log("self-cycle under the default stack limit:", default_limit)
 
+    # request histories on one Resolver (the specification is history-free: every answer must be the one demanded
+    # for that request alone)
+    t_hist = time.time()
+    loader_dies_on_cycles = any("crash" in r for r, w in zip(results, where) if w[1] in ("risky", "pin"))
+    hreqs, hcases = [], []
+    for ci, c in enumerate(cases):
+        c["script"] = c.get("script") or make_script(rng, c, include_risky=not loader_dies_on_cycles)
+        hreqs.append(dict({"dir": c["dir"]} if "dir" in c else {"files": c["files"]}, ops=c["script"]))
+        hcases.append(ci)
+    hres, hrestarts = serve(harness, hreqs, env, per_req_timeout=120)
+    restarts += hrestarts
+    hist_failures = []          # (size, key, what, replay)
+    hist_ops = 0
+    hist_stats = {}
+    first_of_key = {}
+    for ci, r in zip(hcases, hres):
+        c = cases[ci]
+        ops = c["script"]
+        files_for_replay = c["files"] if c["meta"]["shape"] != "shipped" else {"(directory)": os.path.join(REPO, "targets")}
+        if r is None or "crash" in r or "bad" in r:
+            hist_failures.append((len(c["files"]), "history:process-death:" + str((r or {}).get("crash", "?")),
+                                  "the loader process died while answering a sequence of requests on one Resolver",
+                                  {"files": files_for_replay, "ops": ops, "stderr": (r or {}).get("stderr", "")[:300]}))
+            continue
+        for i, (op, got) in enumerate(zip(ops, r.get("script") or [])):
+            hist_ops += 1
+            hist_stats[op[0]] = hist_stats.get(op[0], 0) + 1
+            exp = expect_op(c, op, kinds)
+            dev = judge_op(exp, got)
+            if dev is None:
+                continue
+            key = "history:%s:%s" % (op[0], dev)
+            cand = (len(c["files"]), i, ci)
+            if key not in first_of_key or cand < first_of_key[key][0]:
+                first_of_key[key] = (cand, op, exp, got)
+        if len(r.get("script") or []) != len(ops):
+            hist_failures.append((len(c["files"]), "history:short-answer", "the harness answered fewer requests than were sent", {"ops": ops}))
+    # shrink: is the failing request wrong on its own, after one earlier request, or only after the whole prefix?
+    for key, ((size, i, ci), op, exp, got) in sorted(first_of_key.items()):
+        c = cases[ci]
+        ops = c["script"]
+        base = {"dir": c["dir"]} if "dir" in c else {"files": c["files"]}
+        cands = [[op]]
+        seen_ops = []
+        for q in ops[:i]:
+            if q not in seen_ops:
+                seen_ops.append(q)
+                cands.append([q, op])
+        cands.append(ops[:i + 1])
+        cres, rs = serve(harness, [dict(base, ops=cd) for cd in cands], env, per_req_timeout=120)
+        restarts += rs
+        best = ops[:i + 1]
+        best_got = got
+        for cd, cr in zip(cands, cres):
+            g = (cr.get("script") or [None])[-1] if cr and "crash" not in cr else None
+            if (cr is None or "crash" in cr or judge_op(exp, g) is not None) and len(cd) < len(best):
+                best, best_got = cd, g
+        alone = len(best) == 1
+        what = ("request %s is answered wrongly (%s)" % (op, key.split(":")[2]) if alone else
+                "the answer to %s depends on earlier requests to the same Resolver (%s): after %s" % (op, key.split(":")[2], best[:-1][:4]))
+        files_for_replay = c["files"] if c["meta"]["shape"] != "shipped" else {"(directory)": os.path.join(REPO, "targets")}
+        hist_failures.append((size, key if not alone else "request:%s:%s" % (op[0], key.split(":")[2]), what,
+                              {"files": files_for_replay, "ops": best, "got": best_got, "want": exp if exp[0] != "all" else "(all configurations)"}))
+    ctx.log("request histories: %d scripts, %d requests, %d deviations, %.1fs" % (len(hreqs), hist_ops, len(first_of_key), time.time() - t_hist))
+
     # observations per (case, name): list of ('ok', cfg) | ('err', cls) | ('crash', kind)
     obs = {}
     all_obs = {}
@@ -602,6 +749,9 @@ def run(ctx, args):
         for n, x in zip(names, r["res"]):
             if "ok" in x and x.get("ok") is not None and "err" not in x:
                 obs.setdefault((ci, n), []).append(("ok", x["ok"]))
+            elif x.get("err") in ("panic", "nil-config"):
+                # a run-time panic inside Resolve (recovered by the harness) is a crash, not an error value
+                obs.setdefault((ci, n), []).append(("crash", x["err"], x.get("msg", "")))
             else:
                 obs.setdefault((ci, n), []).append(("err", x.get("err", "?"), x.get("msg", "")))
         if reqs[ri].get("all"):
@@ -691,7 +841,7 @@ def run(ctx, args):
             for o in os_[1:]:
                 if o[:2] != first[:2] and not (o[0] == "err" and first[0] == "err"):
                     order_dep.append((size, dg, n, first[:2], o[:2]))
-            for o in os_[:1]:
+            for o in os_[:1] + [x for x in os_[1:] if x[0] == "crash"]:
                 bump(stats["real"], o[0] if o[0] != "err" else "err-" + o[1])
                 rep = dict(replay, real=o[:2])
                 # specification
@@ -705,7 +855,7 @@ def run(ctx, args):
                         spec_failures.append((size, "hang:" + ("cyclic-forest" if cyc_reachable else "acyclic-forest"), "resolution does not end within 60 s", rep))
                     else:
                         spec_failures.append((size, "crash:" + ("cyclic-forest" if cyc_reachable else "acyclic-forest") + ":" + o[1],
-                                              "the loader process died (%s)" % o[1], dict(rep, stderr=o[2][:300])))
+                                              "the loader crashed (%s) instead of returning a configuration or an error" % o[1], dict(rep, stderr=o[2][:300])))
                 elif exp[0] == "err":
                     if o[0] == "ok":
                         spec_failures.append((size, "resolves-despite-%s-ancestor" % exp[1],
@@ -738,7 +888,9 @@ def run(ctx, args):
             want_err = any(c["expect"][n][0] != "ok" for n in onames)
             evaluations += 1
             if a[0] == "err":
-                if not want_err:
+                if a[1] == "panic":
+                    spec_failures.append((len(c["files"]), "resolveall-panic", "ResolveAll panics", {"files": replay["files"]}))
+                elif not want_err:
                     spec_failures.append((len(c["files"]), "resolveall-spurious-error", "ResolveAll fails on a directory whose files all resolve", {"files": replay["files"], "real": a}))
             else:
                 if want_err:
@@ -754,6 +906,8 @@ def run(ctx, args):
 
     # ------------------------------------------------------------------ verdict
     # spec failures: one report per class, the smallest failing forest first
+    spec_failures += hist_failures
+    evaluations += hist_ops
     spec_failures.sort(key=lambda x: x[0])
     for size, key, what, rep in spec_failures:
         ctx.report(key, what, rep)
@@ -817,6 +971,8 @@ def run(ctx, args):
         "spec_failures_on_real_code": len(spec_failures),
         "correspondence_mismatches": len(corr_mismatch), "spec_validation_mismatches": len(specval_mismatch),
         "order_dependence": len(order_dep),
+        "request_histories": {"scripts": len(hreqs), "requests": hist_ops, "by_op": hist_stats, "deviations": len(first_of_key),
+                              "cyclic_names_in_scripts": not loader_dies_on_cycles},
         "tie_A": {"config_fields": len(facts["config"]), "merged_fields": len(facts["merged"]), "merge_found": facts.get("merge_found")},
     })
 
